@@ -170,3 +170,16 @@ mod tests {
         }));
     }
 }
+
+#[cfg(cozy_chess_verif)]
+impl PieceMovesIter {
+    /// Verification hook: assemble an iterator from raw field values.
+    pub fn verif_from_raw(moves: PieceMoves, promotion: u8) -> Self {
+        Self { moves, promotion }
+    }
+
+    /// Verification hook: the raw field values.
+    pub fn verif_raw(&self) -> (PieceMoves, u8) {
+        (self.moves, self.promotion)
+    }
+}
